@@ -40,7 +40,7 @@ VALUES = ['none', 'zero', 'false', 'empty_str', 'empty_list', 'empty_dict',
           'world']
 FALSY = set(VALUES) - {'obj', 'world'}
 ACCESS = ['call', 'item', 'chain', 'get_call', 'static_attr', 'static_item',
-          'cached', 'clear', 'switch']
+          'cached', 'clear', 'switch', 'pstatic_attr', 'pstatic_item']
 
 
 def gen_one(rng, tier):
@@ -51,7 +51,7 @@ def gen_one(rng, tier):
         handles[0]['value'] = 'world'
     ops = []
     for _ in range(rng.randint(2, 60 if big else 30)):
-        kind = rng.choices(ACCESS, [20, 16, 12, 8, 10, 8, 4, 12, 10])[0]
+        kind = rng.choices(ACCESS, [20, 16, 12, 8, 8, 6, 4, 12, 10, 8, 6])[0]
         op = [kind, rng.randrange(len(handles))]
         if kind == 'switch':
             op += [rng.random() < 0.5, rng.random() < 0.5,
@@ -135,6 +135,19 @@ def run_case(case):
             return v
         if kind == 'get_call':
             return root.get(path)()
+        if kind.startswith('p'):
+            # one snapshot taken once and used across clears
+            if 'snapshot' not in loops:
+                loops['snapshot'] = root.get_static_map()
+            v = loops['snapshot']
+            if kind == 'pstatic_attr' and all(n.isidentifier()
+                                              for n in names):
+                for n in names:
+                    v = getattr(v, n)
+            else:
+                for n in names:
+                    v = v[n]
+            return v
         if kind == 'static_attr' and all(n.isidentifier() for n in names):
             v = root.get_static_map()
             for n in names:
